@@ -31,7 +31,8 @@ package aeskw
 //@   tags C03 C07 C17
 //@   requires block != nil && block.blocksize == 16
 //@   modifies nothing
-//@   ensures [C03.kw.wrap.blocks] len(cek) % 8 != 0 <==> result1 != nil
+// RFC 3394: the key data consists of n >= 2 64-bit blocks; anything else is refused (no output)
+//@   ensures [C03.kw.wrap.blocks] (len(cek) % 8 != 0 || len(cek) < 16) <==> result1 != nil
 //@   ensures [C03.kw.wrap.noout] result1 != nil ==> result == nil
 //@   ensures [C03.kw.wrap.len] result1 == nil ==> (fresh(result) && len(result) == len(cek) + 8)
 //@   loop 0 invariant -1 <= rangeindex && rangeindex < len(r) && len(r) == n && fresh(r) && 8 * n == len(cek)
@@ -52,16 +53,15 @@ package aeskw
 
 // Unwrap (RFC 3394 §2.2.2). Loops in source order: 0 = split cipherText[8:] into r[0..n); 1 = j in 5..0;
 // 2 = i in n..1. areg is the A register after the 6n steps; success requires it to equal the default IV.
-// Failing on the unchanged code (genuine defects, see report): make#0 (len(cipherText) < 8 gives n == -1),
-// pre:arrConcat (8 <= len < 16 and cipherText[:8] == IV: arrConcat() of nothing), and the two C03.kw.unwrap.*
-// length clauses (trailing bytes of a ciphertext whose length is not a multiple of 8 are silently ignored).
+// (The length defects the first version of this contract found -- short inputs, trailing bytes, and later n < 2 -- are
+// repaired; see /verif/known_findings.json.)
 //@ func Unwrap
 //@   tags C03 C07 C17
 //@   ghost areg bytes
 //@   requires block != nil && block.blocksize == 16
 //@   modifies nothing
 //@   ensures [C03.kw.unwrap.noout] result1 != nil ==> result == nil
-//@   ensures [C03.kw.unwrap.blocks] (len(cipherText) < 16 || len(cipherText) % 8 != 0) ==> result1 != nil
+//@   ensures [C03.kw.unwrap.blocks] (len(cipherText) < 24 || len(cipherText) % 8 != 0) ==> result1 != nil
 //@   ensures [C03.kw.unwrap.len] result1 == nil ==> (fresh(result) && len(result) == len(cipherText) - 8)
 //@   ensures [C03.kw.unwrap.integrity] result1 == nil ==> (len(defaultIV) == 8 && (forall k :: 0 <= k && k < 8 ==> areg[k] == defaultIV[k]))
 //@   at call ConstantTimeCompare#0 ghost areg = lambda k :: a[k]
